@@ -61,24 +61,36 @@ def _copy_h5_element(
         if current_location not in excluded_datasets:
             src_dataset = src_handle[current_location]
             chunks = src_dataset.chunks
-            if chunks is not None and 0 in src_dataset.shape:
-                # an empty dataset cannot be chunked
-                chunks = None
+            compression = src_dataset.compression
+            compression_opts = src_dataset.compression_opts
+            if chunks is not None:
+                if 0 in src_dataset.shape:
+                    # an empty dataset can be neither chunked
+                    # nor compressed
+                    chunks = None
+                    compression = None
+                    compression_opts = None
+                else:
+                    # a resizable dataset may have chunks larger
+                    # than its current shape
+                    chunks = tuple(
+                        min(c, n)
+                        for c, n in zip(chunks, src_dataset.shape))
             if chunks is None:
                 dst_dataset = dst_handle.create_dataset(
                     current_location,
                     data=src_dataset,
-                    chunks=src_dataset.chunks,
-                    compression=src_dataset.compression,
-                    compression_opts=src_dataset.compression_opts)
+                    chunks=None,
+                    compression=compression,
+                    compression_opts=compression_opts)
             else:
                 dst_dataset = dst_handle.create_dataset(
                     current_location,
                     dtype=src_dataset.dtype,
                     shape=src_dataset.shape,
-                    chunks=src_dataset.chunks,
-                    compression=src_dataset.compression,
-                    compression_opts=src_dataset.compression_opts)
+                    chunks=chunks,
+                    compression=compression,
+                    compression_opts=compression_opts)
 
                 copy_slices = _get_slices_for_copy(
                     data_shape=src_dataset.shape,
